@@ -79,6 +79,49 @@ Qed.
 Lemma site_ok_call_ok : forall arm h c, site_ok (arm, h, cfallible c, checked c) = true -> call_ok c = true.
 Proof. intros arm h c H. exact H. Qed.
 
+(* ---- the helper's side of the contract: an error is reported by storing it AND clearing ctx.is_native, because
+   the flag is what the generated test reads.  [native_flag] keeps the flag explicitly: a helper that reports
+   without clearing it ([clears c = false]) is not noticed even by a checked site. *)
+Record callf := { base : call; clears : bool }.
+
+Fixpoint native_flag (p : list callf) (st : list Z) : hres :=
+  match p with
+  | [] => HVal (hd 0%Z st)
+  | c :: r => match run (base c) st with
+              | HVal v => native_flag r (v :: st)
+              | HErr e => if checked (base c) && clears c then HErr e else native_flag r (0%Z :: st)
+              end
+  end.
+
+Lemma native_flag_agrees : forall p, Forall (fun c => fallible_sound (base c)) p ->
+  forallb (fun c => call_ok (base c) && implb (cfallible (base c)) (clears c)) p = true ->
+  forall st, native_flag p st = interp (map base p) st.
+Proof.
+  induction p as [|c r IH]; intros Hs Hok st; cbn [native_flag interp map]; [reflexivity|].
+  inversion Hs as [|? ? Hc Hr]; subst.
+  cbn [forallb] in Hok. apply andb_true_iff in Hok. destruct Hok as [Hc_ok Hr_ok].
+  apply andb_true_iff in Hc_ok. destruct Hc_ok as [H1 H2].
+  destruct (run (base c) st) as [v|e] eqn:Hrun.
+  - apply IH; assumption.
+  - specialize (Hc st e Hrun). unfold call_ok in H1. rewrite Hc in H1, H2. cbn in H1, H2.
+    rewrite H1, H2. reflexivity.
+Qed.
+
+Lemma helper_not_clearing_flag_loses_error : exists p st,
+  Forall (fun c => fallible_sound (base c)) p /\ forallb (fun c => call_ok (base c)) p = true /\
+  native_flag p st <> interp (map base p) st.
+Proof.
+  exists [{| base := {| run := run car_like; cfallible := true; checked := true |}; clears := false |}], [0%Z].
+  split; [|split].
+  - constructor; [|constructor]. intros st e _. reflexivity.
+  - reflexivity.
+  - cbn. discriminate.
+Qed.
+
+(* generated: (function or macro of jit.rs, number of error stores, number of `is_native = false`) *)
+Definition stores_ok (x : string * nat * nat) : bool := let '(_, s, c) := x in Nat.leb s c.
+Definition helper_discipline (l : list (string * nat * nat)) : bool := forallb stores_ok l.
+
 Example discipline_nonvacuous :
   discipline [("CAR"%string, "car-reg"%string, true, true); ("CONS"%string, "cons-handler-value"%string, false, false)] = true /\
   discipline [("CAR"%string, "car-reg"%string, true, false)] = false.
